@@ -231,7 +231,10 @@ def _check_proto(run, world, folder, mod, c):
     # ---- R-FSM-RESET -----------------------------------------------------------
     run.rule("R-FSM-RESET", "terminal state: every path ends in reset()")
     term = branches[-1]
-    cfg = CFG(fn, may_raise=explicit_raise_only, name=P + "._process_byte")
+    # calls may raise: the except handlers of the enum conversions are
+    # real paths of the terminal state
+    from ..cfg import default_may_raise
+    cfg = CFG(fn, may_raise=default_may_raise, name=P + "._process_byte")
 
     def tr(node, st):
         if node.kind == "stmt" and node.ast is not None:
